@@ -472,7 +472,6 @@ Section Symbolic.
 
   (* perfect-cryptography hypotheses (ECDSA, ECDH) *)
   Hypothesis verify_sign : forall sk s m, verify (pub sk) s m = true <-> s = sign sk m.
-  Hypothesis sign_names_signer : forall a b m, sign a m = sign b m -> a = b.
   Hypothesis dh_comm : forall a b, dh a (pub b) = dh b (pub a).
 
   Lemma fail_oracle_nonzero code : o_parse (fail_oracle code) <> 0.
